@@ -106,9 +106,7 @@ def idsS (ids : List Nat) : String :=
 /-- build the table exactly as the harness does (all `add_cie` calls, then all `add_fde` calls),
 write it, render the reply -/
 def runTable (m : Mode) (eh : Bool) (e : Endian) (cies : List WCie) (fdes : List (Nat × Out WFde)) : String :=
-  let (t, ids) := cies.foldl (fun (acc : Table × List Nat) c =>
-    let (t', i) := acc.1.addCie c
-    (t', acc.2 ++ [i])) (({} : Table), [])
+  let (t, ids) := ({} : Table).addCies cies
   -- FDEs: construction (may hit the debug assertion) happens before `add_fde`
   let built : Out Table := fdes.foldl (fun (acc : Out Table) kf => acc.bind fun t =>
     kf.2.bind fun f =>
